@@ -24,7 +24,22 @@ def _group_key(it):
 
 
 def execute_items(items, tag, jobs=8):
-    """returns for each item (slot or None, step observation)"""
+    """returns for each item (slot or None, step observation). A panic ends its batch: the steps after it come back
+    as 'skipped' and are executed again in fresh batches (a panic is attributed to the line that raised it only)."""
+    res = _execute_items(items, tag, jobs)
+    rounds = 0
+    while rounds < 200:
+        redo = [i for i, r in enumerate(res) if r[1].get("outcome") == "skipped" and r[1].get("why") == "earlier panic"]
+        if not redo:
+            break
+        rounds += 1
+        again = _execute_items([items[i] for i in redo], "%s.redo%d" % (tag, rounds), jobs)
+        for i, r in zip(redo, again):
+            res[i] = r
+    return res
+
+
+def _execute_items(items, tag, jobs=8):
     groups = {}
     for idx, it in enumerate(items):
         groups.setdefault(_group_key(it), []).append(idx)
@@ -71,6 +86,8 @@ def project_extra(slot, item):
     """kind-specific projection of the printed form (trusted, table driven; see lib/proj.py)"""
     if slot.get("k") == "dur":
         slot["parts"] = proj.duration_parts(slot.get("out", ""), item.get("lang", "en"))
+    elif slot.get("k") == "date":
+        slot["pr"] = proj.date_printed(slot.get("out", ""), item.get("lang", "en"))
     elif slot.get("k") == "time":
         slot["pr"] = proj.time_printed(slot.get("out", ""))
 
